@@ -1,8 +1,386 @@
 package driver
 
-import "verif/sim/vrt"
+import (
+	"fmt"
 
-func (rn *runner) optUnoptFunc(e vrt.Entry) {}
-func (rn *runner) soloFunc(e vrt.Entry)     {}
-func (rn *runner) panicFunc(e vrt.Entry)    {}
-func (rn *runner) depthFunc(e vrt.Entry)    {}
+	"verif/sim/hist"
+	"verif/sim/prng"
+	"verif/sim/vrt"
+)
+
+func (rn *runner) drainScenario(e vrt.Entry, args []int, vi int) (*Scenario, bool) {
+	sp := rn.spec
+	if e.New == nil {
+		return &Scenario{Iters: []IterSpec{{e.Name, args}}, Threads: [][]Op{{{K: OCall, H: 0}}}, PanicAt: -1}, true
+	}
+	n, fuel := rn.pilot(e.Name, args)
+	if fuel {
+		rn.count("discarded_fuel_watchdog", 1)
+		return nil, false
+	}
+	return &Scenario{Iters: []IterSpec{{e.Name, args}}, PanicAt: -1,
+		Threads: [][]Op{drain(prng.Derive(sp.Seed, sp.Prop, sp.Batch, e.Name, vi), 0, n)}}, true
+}
+
+// optUnoptFunc (C07): the optimised build against the unoptimised stage of the SAME
+// compiler run, on identical schedules — fault-free and with a panic armed at sampled
+// effect indices. The reference is consulted only to say which side is wrong.
+func (rn *runner) optUnoptFunc(e vrt.Entry) {
+	sp := rn.spec
+	r := prng.Derive(sp.Seed, sp.Prop, sp.Batch, e.Name, "args")
+	for vi, args := range argVectors(r, e, sp.ArgVecs) {
+		sc, ok := rn.drainScenario(e, args, vi)
+		if !ok {
+			continue
+		}
+		class, exp, obs, at, skip := rn.compare("optunopt", "unopt", "opt", sc)
+		rn.res.Scenarios++
+		if skip {
+			rn.count("discarded_fuel_watchdog", 1)
+			continue
+		}
+		if class != "" {
+			sc = rn.shrinkOps("optunopt", "unopt", "opt", sc, class)
+			class, exp, obs, at, _ = rn.compare("optunopt", "unopt", "opt", sc)
+			rn.mismatch(e.Name, "optunopt", "unopt", "opt", sc, exp, obs, at, class)
+			// which side deviates from the source?
+			if c2, _, _, _, _ := rn.compare("refeq", "ref", "opt", sc); c2 == "" {
+				rn.count("optunopt_mismatch_unopt_side_wrong", 1)
+			} else {
+				rn.count("optunopt_mismatch_opt_side_wrong", 1)
+			}
+			return
+		}
+		if yields(exp) >= 1 && effects(exp) >= 2 || e.New == nil && effects(exp) >= 2 {
+			rn.nontrivial(e.Name, sc)
+		}
+		J := effects(exp)
+		nf := sp.MaxFault
+		if nf > J {
+			nf = J
+		}
+		fr := prng.Derive(sp.Seed, sp.Prop, sp.Batch, e.Name, vi, "faults")
+		for _, j := range fr.Perm(J)[:nf] {
+			fs := cloneSc(sc)
+			fs.PanicAt = j
+			class, exp, obs, at, skip := rn.compare("optunopt", "unopt", "opt", fs)
+			rn.res.Scenarios++
+			rn.count("panics_armed", 1)
+			if skip {
+				continue
+			}
+			if class != "" {
+				rn.mismatch(e.Name, "optunopt", "unopt", "opt", fs, exp, obs, at, class)
+				return
+			}
+		}
+	}
+}
+
+func projectHandle(h hist.H, handle int) hist.H {
+	var out hist.H
+	for _, e := range h {
+		if e.H == handle {
+			e.Th, e.H = 0, 0
+			out = append(out, e)
+		}
+	}
+	return out
+}
+
+func soloOf(sc *Scenario, h int) *Scenario {
+	s := &Scenario{Iters: []IterSpec{sc.Iters[h]}, Threads: [][]Op{nil}, PanicAt: -1}
+	for _, ops := range sc.Threads {
+		for _, op := range ops {
+			if op.H == h && op.K != OQuiesce {
+				op.H = 0
+				s.Threads[0] = append(s.Threads[0], op)
+			}
+		}
+	}
+	return s
+}
+
+// multi builds k iterators (instances of e with different arguments, plus instances of other
+// generators of the batch) owned by m threads with randomly merged op lists.
+func (rn *runner) multi(e vrt.Entry, r *prng.R, maxIters, maxThreads int) *Scenario {
+	sc := &Scenario{PanicAt: -1, UseSched: true}
+	k := 2 + r.Intn(maxIters-1)
+	m := 1 + r.Intn(maxThreads)
+	if m > k {
+		m = k
+	}
+	var others []vrt.Entry
+	for _, o := range rn.impls["opt"] {
+		if o.New != nil && o.Name != e.Name {
+			others = append(others, o)
+		}
+	}
+	// deterministic order
+	for i := 1; i < len(others); i++ {
+		for j := i; j > 0 && others[j].Name < others[j-1].Name; j-- {
+			others[j], others[j-1] = others[j-1], others[j]
+		}
+	}
+	per := make([][]Op, k)
+	for h := 0; h < k; h++ {
+		ent := e
+		if h > 0 && len(others) > 0 && r.Chance(1, 3) {
+			ent = others[r.Intn(len(others))]
+		}
+		args := make([]int, len(ent.Args))
+		for i := range args {
+			args[i] = ent.Args[i][r.Intn(len(ent.Args[i]))]
+		}
+		sc.Iters = append(sc.Iters, IterSpec{ent.Name, args})
+		n, _ := rn.pilot(ent.Name, args)
+		if n > 10 {
+			n = 10
+		}
+		per[h] = drain(r, h, n)
+	}
+	sc.Threads = make([][]Op, m)
+	idx := make([]int, k)
+	for {
+		var live []int
+		for h := 0; h < k; h++ {
+			if idx[h] < len(per[h]) {
+				live = append(live, h)
+			}
+		}
+		if len(live) == 0 {
+			break
+		}
+		h := live[r.Intn(len(live))]
+		owner := h % m
+		sc.Threads[owner] = append(sc.Threads[owner], per[h][idx[h]])
+		idx[h]++
+	}
+	return sc
+}
+
+// soloFunc (C14): interleaved consumption on several threads, scheduler decisions at every
+// op boundary and effect point. Self-relative oracle: per-iterator projection == solo run.
+func (rn *runner) soloFunc(e vrt.Entry) {
+	sp := rn.spec
+	if e.New == nil {
+		return
+	}
+	for vi := 0; vi < sp.ArgVecs; vi++ {
+		r := prng.Derive(sp.Seed, sp.Prop, sp.Batch, e.Name, vi)
+		sc := rn.multi(e, r, 4, 3)
+		pilot := Play(rn.impls["opt"], sc, PlayOpt{Fuel: Fuel, Rng: prng.Derive(sp.Seed, sp.Prop, sp.Batch, e.Name, vi, "sched")})
+		rn.res.Scenarios++
+		if pilot.FuelOut {
+			rn.count("discarded_fuel_watchdog", 1)
+			continue
+		}
+		sc.Choices = pilot.Choices
+		inter := Play(rn.impls["opt"], sc, PlayOpt{Fuel: Fuel})
+		rn.count("thread_switches", pilot.Switches)
+		rn.count("sched_points", pilot.Points)
+		rn.res.Sets["thread_choice_sequences"] = append(rn.res.Sets["thread_choice_sequences"], prng.Derive(0, fmt.Sprint(pilot.Choices)).Seed())
+		bad := false
+		for h := range sc.Iters {
+			solo := Play(rn.impls["opt"], soloOf(sc, h), PlayOpt{Fuel: Fuel})
+			got := projectHandle(inter.Hist, h)
+			want := projectHandle(solo.Hist, 0)
+			if at := hist.FirstDiff(want, got); at >= 0 {
+				rn.mismatch(e.Name, "solo", "opt-alone", "opt-interleaved", sc, want, got, at, fmt.Sprintf("solo(h%d): %s", h, classOf(want, got, at)))
+				bad = true
+				break
+			}
+		}
+		if bad {
+			return
+		}
+		ref := Play(rn.impls["ref"], sc, PlayOpt{Fuel: Fuel})
+		if at := hist.FirstDiff(ref.Hist, inter.Hist); at >= 0 && !ref.FuelOut {
+			rn.count("interleaved_differs_from_reference", 1)
+			rn.mismatch(e.Name, "refeq-interleaved", "ref", "opt", sc, ref.Hist, inter.Hist, at, "refeq-interleaved(ref vs opt): "+classOf(ref.Hist, inter.Hist, at))
+			return
+		}
+		if len(sc.Iters) >= 2 && pilot.Switches >= 2 && effects(inter.Hist) >= 2 {
+			rn.nontrivial(e.Name, sc)
+		}
+		if len(rn.res.Samples) < sp.Samples {
+			rn.res.Samples = append(rn.res.Samples, map[string]any{"iters": sc.Iters, "threads": fmt.Sprint(sc.Threads), "choices": sc.Choices, "history": inter.Hist.Strings()})
+		}
+	}
+}
+
+// panicFunc (C18): every effect index of every sampled run gets its own run with a panic
+// armed there.
+func (rn *runner) panicFunc(e vrt.Entry) {
+	sp := rn.spec
+	r := prng.Derive(sp.Seed, sp.Prop, sp.Batch, e.Name, "args")
+	for vi, args := range argVectors(r, e, sp.ArgVecs) {
+		var sc *Scenario
+		if e.New != nil && vi%2 == 1 {
+			sc = rn.multi(e, prng.Derive(sp.Seed, sp.Prop, sp.Batch, e.Name, vi, "multi"), 3, 2)
+			pilot := Play(rn.impls["opt"], sc, PlayOpt{Fuel: Fuel, Rng: prng.Derive(sp.Seed, sp.Prop, sp.Batch, e.Name, vi, "sched")})
+			sc.Choices = pilot.Choices
+			rn.count("multi_iterator_runs", 1)
+		} else {
+			var ok bool
+			if sc, ok = rn.drainScenario(e, args, vi); !ok {
+				continue
+			}
+		}
+		free := Play(rn.impls["opt"], sc, PlayOpt{Fuel: Fuel})
+		if free.FuelOut {
+			rn.count("discarded_fuel_watchdog", 1)
+			continue
+		}
+		J := free.Effects
+		if J > sp.MaxFault {
+			J = sp.MaxFault
+			rn.count("runs_capped", 1)
+		} else {
+			rn.count("runs_fully_enumerated", 1)
+		}
+		for j := 0; j < J; j++ {
+			fs := cloneSc(sc)
+			fs.PanicAt = j
+			rn.res.Scenarios++
+			rn.count("panics_armed", 1)
+			if class, exp, obs, at := rn.panicCheck(free.Hist, fs, j); class != "" {
+				rn.mismatch(e.Name, "panic", "opt-fault-free", "opt-faulted", fs, exp, obs, at, class)
+				return
+			}
+			rn.count("panics_fired", 1)
+			if yields(free.Hist) >= 1 {
+				rn.nontrivial(e.Name, fs)
+			}
+		}
+		if len(rn.res.Samples) < sp.Samples && J > 2 {
+			fs := cloneSc(sc)
+			fs.PanicAt = J / 2
+			run := Play(rn.impls["opt"], fs, PlayOpt{Fuel: Fuel})
+			rn.res.Samples = append(rn.res.Samples, map[string]any{"iters": sc.Iters, "threads": fmt.Sprint(sc.Threads), "panic_at_effect": J / 2, "history": run.Hist.Strings()})
+		}
+	}
+}
+
+func (rn *runner) panicCheck(free hist.H, fs *Scenario, j int) (string, hist.H, hist.H, int) {
+	idx, n := -1, 0
+	for i, e := range free {
+		if e.K == hist.Eff {
+			if n == j {
+				idx = i
+				break
+			}
+			n++
+		}
+	}
+	if idx < 0 {
+		return "", nil, nil, -1
+	}
+	faulted := Play(rn.impls["opt"], fs, PlayOpt{Fuel: Fuel}).Hist
+	eff := free[idx]
+	pre := faulted
+	if len(pre) > idx+1 {
+		pre = pre[:idx+1]
+	}
+	if at := hist.FirstDiff(free[:idx+1], pre); at >= 0 {
+		return "panic-prefix: " + classOf(free[:idx+1], pre, at), free[:idx+1], pre, at
+	}
+	if eff.H >= 0 {
+		openOp := ""
+		for i := idx; i >= 0; i-- {
+			if e := free[i]; e.K == hist.Inv && e.H == eff.H {
+				openOp = e.Op
+				break
+			}
+		}
+		exp := projectHandle(free[:idx+1], eff.H)
+		exp = append(exp, hist.Event{K: hist.Pan, Op: openOp, S: vrt.Injected{Eff: j}.String(), OK: -1})
+		got := projectHandle(faulted, eff.H)
+		if at := hist.FirstDiff(exp, got); at >= 0 {
+			return "panic-origin: " + classOf(exp, got, at), exp, got, at
+		}
+	}
+	for h := range fs.Iters {
+		if h == eff.H {
+			continue
+		}
+		a, b := projectHandle(free, h), projectHandle(faulted, h)
+		if at := hist.FirstDiff(a, b); at >= 0 {
+			return fmt.Sprintf("panic-isolation(h%d): %s", h, classOf(a, b, at)), a, b, at
+		}
+	}
+	ref := Play(rn.impls["ref"], fs, PlayOpt{Fuel: Fuel}).Hist
+	if at := hist.FirstDiff(ref, faulted); at >= 0 {
+		return "refeq-under-panic(ref vs opt): " + classOf(ref, faulted, at), ref, faulted, at
+	}
+	return "", nil, nil, -1
+}
+
+const depthSlack = 8
+
+// depthFunc (C17): entries whose first parameter is the trip count / delegation depth.
+// Args[0] lists ascending sizes; stack depth is sampled at effect points.
+func (rn *runner) depthFunc(e vrt.Entry) {
+	if e.New == nil || len(e.Args) == 0 {
+		return
+	}
+	for _, k2 := range e.Args[len(e.Args)-1] {
+		rn.depthLadder(e, k2)
+	}
+}
+
+func (rn *runner) depthLadder(e vrt.Entry, k2 int) {
+	sizes := e.Args[0]
+	depths := make([]int, len(sizes))
+	for i, n := range sizes {
+		args := make([]int, len(e.Args))
+		args[0] = n
+		for k := 1; k < len(args); k++ {
+			args[k] = k2
+		}
+		sc := &Scenario{Iters: []IterSpec{{e.Name, args}}, Threads: [][]Op{{{K: ONew, H: 0}}}, PanicAt: -1}
+		for k := 0; k < 6; k++ {
+			sc.Threads[0] = append(sc.Threads[0], Op{K: OMove, H: 0}, Op{K: OCur, H: 0})
+		}
+		each := n / 8
+		if each < 1 {
+			each = 1
+		}
+		run := Play(rn.impls["opt"], sc, PlayOpt{DepthOn: true, DepthEach: each})
+		depths[i] = run.MaxDepth
+		rn.res.Scenarios++
+		rn.count("iterations_simulated", n)
+		mk := func(n, d int) hist.H {
+			return hist.H{{K: hist.Mut, H: -1, Op: "max-stack-depth-frames", V: []int64{int64(n), int64(d)}, OK: -1}}
+		}
+		linear := len(e.Name) > 0 && e.Name[0] == 'R' // delegation depth entries: linear growth allowed
+		if i > 0 && !linear && depths[i] > depths[0]+depthSlack {
+			rn.mismatch(e.Name, "depth", "opt", "opt", sc, mk(sizes[0], depths[0]), mk(n, depths[i]), 0,
+				"depth: stack depth grows with the number of iterations between yields")
+			return
+		}
+		if linear && i >= 2 {
+			// at most linear: the increment per doubling must not itself keep growing
+			d1 := depths[i-1] - depths[i-2]
+			d2 := depths[i] - depths[i-1]
+			s1 := sizes[i-1] - sizes[i-2]
+			s2 := sizes[i] - sizes[i-1]
+			if s1 > 0 && s2 > 0 && d2*s1 > (d1*s2)+(depthSlack*s1) {
+				rn.mismatch(e.Name, "depth", "opt", "opt", sc, mk(sizes[i-1], depths[i-1]), mk(n, depths[i]), 0,
+					"depth: stack depth grows faster than linearly with delegation depth")
+				return
+			}
+		}
+		// the delivered values must agree with the reference
+		ref := Play(rn.impls["ref"], sc, PlayOpt{})
+		a, b := valueProjection(ref.Hist), valueProjection(run.Hist)
+		if at := hist.FirstDiff(a, b); at >= 0 {
+			rn.mismatch(e.Name, "depth-values", "ref", "opt", sc, a, b, at, "depth-values(ref vs opt): "+classOf(a, b, at))
+			return
+		}
+		rn.nontrivial(e.Name, sc)
+	}
+	if len(rn.res.Samples) < rn.spec.Samples+4 {
+		rn.res.Samples = append(rn.res.Samples, map[string]any{"func": e.Name, "sizes": sizes, "max_depth_frames": depths})
+	}
+}
